@@ -484,12 +484,14 @@ func (un *Unit) inline(fr *Frame, st *State, callee *ssa.Function, binds []Val, 
 			un.oblige(st, "pre", name, cl.Props, t, callee.Pos(), cl.Text)
 		}
 	}
+	callG := st.guard
 	rets, out := un.execFunc(nf, st)
 	if un.outside != "" {
 		return Val{t: "0"}
 	}
 	// execFunc returns a new state object; copy back into st
 	st.guard, st.heap, st.base = out.guard, out.heap, out.base
+	un.recordInlined(fr, callee, rets, args, callG)
 	if inlFC != nil {
 		// ... and its ensures, proved for the callee as a unit, are available here as lemmas about this very execution
 		sc := un.scopeFor(nf, st, pre, rets)
@@ -508,6 +510,45 @@ func (un *Unit) inline(fr *Frame, st *State, callee *ssa.Function, binds []Val, 
 		return rets[0]
 	}
 	return Val{tuple: rets}
+}
+
+// recordInlined makes the results and arguments of an inlined call (a callee without a contract, or with a no-frame
+// contract that is executed in place) available to ret()/retis()/arg() in the enclosing frames, just as applyContract
+// does for calls replaced by their contract. Only named functions are recorded; closures have no stable name.
+func (un *Unit) recordInlined(fr *Frame, callee *ssa.Function, rets []Val, args []Val, g string) {
+	if callee.Parent() != nil || callee.Signature == nil {
+		return
+	}
+	calleeKey := funcKey(callee)
+	last := calleeKey
+	if i := strings.LastIndex(calleeKey, "."); i >= 0 {
+		last = calleeKey[i+1:]
+	}
+	rvals := make([]Val, len(rets))
+	for i := range rets {
+		rvals[i] = rets[i]
+		rvals[i].callGuard = g
+		if i < callee.Signature.Results().Len() {
+			rvals[i].typ = callee.Signature.Results().At(i).Type()
+		}
+	}
+	argRec := map[string]Val{}
+	for i, p := range callee.Params {
+		if i < len(args) {
+			a := args[i]
+			a.callGuard = g
+			a.typ = p.Type()
+			argRec[p.Name()] = a
+		}
+	}
+	for f := fr; f != nil; f = f.parent {
+		f.calls[calleeKey]++
+		o := f.calls[calleeKey]
+		f.callRes[fmt.Sprintf("%s#%d", shortKey(calleeKey), o)] = rvals
+		f.callRes[fmt.Sprintf("%s#%d", last, o)] = rvals
+		f.callArgs[fmt.Sprintf("%s#%d", shortKey(calleeKey), o)] = argRec
+		f.callArgs[fmt.Sprintf("%s#%d", last, o)] = argRec
+	}
 }
 
 func (un *Unit) runDefers(fr *Frame, st *State, in *ssa.RunDefers) {
